@@ -250,6 +250,10 @@ func Gen(t *rapid.T, o Options) (Spec, []string) {
 	big := rapid.IntRange(0, 29).Draw(t, "manyciphers") == 0
 	if big {
 		minC, maxC = 100, 130
+		if rapid.Bool().Draw(t, "hugeciphers") {
+			// counts beyond one octet: "capped at 99" has to hold for 256, 300, 355 entries as well
+			minC, maxC = 254, 360
+		}
 	}
 	var shape string
 	pool := knownCiphers
@@ -263,7 +267,7 @@ func Gen(t *rapid.T, o Options) (Spec, []string) {
 			}
 		}
 	}
-	s.Ciphers, shape = shapedList(t, "ciphers", pool, must, minC, maxC, !o.Handshake)
+	s.Ciphers, shape = shapedList(t, "ciphers", pool, must, minC, maxC, !o.Handshake || big) // (a long list needs values beyond the known pool; a TLS stack skips suites it does not know)
 	cl = append(cl, "ciphers:grease-"+shape, "ciphers:n="+nClass(countNonGrease(s.Ciphers)))
 
 	// extensions
@@ -313,7 +317,7 @@ func Gen(t *rapid.T, o Options) (Spec, []string) {
 		exts = append(exts, Ext{Kind: "alpn", Strs: append([]string{string([]byte{0xe2, 0x82, 0xac}) + "x"}, orDefault(alpnTail, "h2")...)})
 		cl = append(cl, "alpn:first-byte>127")
 	case 3: // non-alphanumeric but printable ends
-		exts = append(exts, Ext{Kind: "alpn", Strs: append([]string{rapid.SampledFrom([]string{"-ab-", ".x", "a b", "q/", "h3-29"}).Draw(t, "a3")}, orDefault(alpnTail, "h2")...)})
+		exts = append(exts, Ext{Kind: "alpn", Strs: append([]string{rapid.SampledFrom([]string{"-ab-", ".x", "a b", "q/", "h3-29", "%s", "100%", "%", "%d%", "a\\", "{}", "_x_"}).Draw(t, "a3")}, orDefault(alpnTail, "h2")...)})
 		cl = append(cl, "alpn:first-nonalnum")
 	case 4: // two characters exactly
 		exts = append(exts, Ext{Kind: "alpn", Strs: append([]string{"h3"}, orDefault(alpnTail, "h2")...)})
@@ -448,6 +452,10 @@ func Gen(t *rapid.T, o Options) (Spec, []string) {
 	nu := rapid.IntRange(0, 3).Draw(t, "nunknown")
 	if rapid.IntRange(0, 29).Draw(t, "manyexts") == 0 {
 		nu = rapid.IntRange(90, 110).Draw(t, "nunknownBig")
+		if rapid.Bool().Draw(t, "hugeexts") {
+			nu = rapid.IntRange(250, 300).Draw(t, "nunknownHuge")
+			cl = append(cl, "exts:n>=250")
+		}
 		cl = append(cl, "exts:n>=99")
 	}
 	usedTypes := map[uint16]bool{}
@@ -544,7 +552,9 @@ func nClass(n int) string {
 		return "1"
 	case n < 99:
 		return "2-98"
-	default:
+	case n < 256:
 		return ">=99"
+	default:
+		return ">=256"
 	}
 }
